@@ -218,6 +218,50 @@ def purity_case(ctx, name, f, args, kwargs):
               sample=dict(function=name, result=repr(core.jsonable(r0))[:160]))
 
 
+@core.safe_case
+def dtype_case(ctx, name, f, pts, extra):
+    """same values as float64 and as int64 must give the same result (cheap, many curves)"""
+    site = 'kneeliverse.' + name
+    case = dict(function=name, points=pts.tolist(), extra=[repr(e) for e in extra])
+    try:
+        r0 = f(np.ascontiguousarray(pts, dtype=float), *extra)
+        r1 = f(pts.astype(np.int64), *extra)
+    except Exception as e:
+        ctx.fail('predicate', 'completes-on-int64-and-float64', site, case, repr(e)[:200])
+        return
+    if not same(r0, r1):
+        ctx.fail('predicate', 'same-result-on-int64-representation', site, case, dict(float64=core.jsonable(r0), int64=core.jsonable(r1)))
+    ctx.count('dtype:' + name, n=len(pts), nontrivial_key=(name, pts.tobytes()), sample=dict(function=name, n=len(pts)))
+
+
+def dtype_sweep(ctx, rounds):
+    import kneeliverse.curvature as cu, kneeliverse.dfdt as df, kneeliverse.menger as mg, kneeliverse.lmethod as lm, kneeliverse.kneedle as kn
+    import kneeliverse.zmethod as zm, kneeliverse.rdp as rdp, kneeliverse.convex_hull as ch, kneeliverse.linear_fit as lf, kneeliverse.postprocessing as pp
+    rng = ctx.rng
+    fns = [('curvature.knee', cu.knee, ()), ('dfdt.knee', df.knee, ()), ('menger.knee', mg.knee, ()), ('lmethod.knee', lm.knee, ()),
+           ('kneedle.knee', kn.knee, ()), ('kneedle.knees', kn.knees, ()), ('kneedle.multi_knee', kn.multi_knee, ()), ('curvature.multi_knee', cu.multi_knee, ()),
+           ('zmethod.knees', zm.knees, (0.1, 0.1, 0.25)), ('rdp.rdp', rdp.rdp, (0.05,)), ('rdp.rdp_fixed', rdp.rdp_fixed, (6,)), ('rdp.grdp', rdp.grdp, (0.05,)),
+           ('convex_hull.graham_scan_lower', ch.graham_scan_lower, ()), ('linear_fit.linear_fit_points', lf.linear_fit_points, ()),
+           ('linear_fit.perpendicular_distance', lf.perpendicular_distance, ()), ('linear_fit.linear_hv_residuals_points', lf.linear_hv_residuals_points, ())]
+    for _ in range(rounds):
+        n = rng.randrange(8, 32)
+        kind = rng.choice(['near-chord', 'decay', 'walk'])
+        x = np.cumsum([rng.choice([1, 1, 2, 3]) for _ in range(n)])
+        if kind == 'near-chord':
+            m = rng.choice([-4, -3, -2, 2, 3, 5])
+            y = np.array([m * xi + rng.choice([-2, -1, 0, 0, 1, 2]) for xi in x])
+            y = y - y.min()
+        elif kind == 'decay':
+            y = np.array(sorted((rng.randrange(0, 100) for _ in range(n)), reverse=True))
+        else:
+            y = np.abs(np.cumsum([rng.randrange(-5, 6) for _ in range(n)])) + 1
+        pts = np.column_stack([x, y]).astype(float)
+        if np.ptp(pts[:, 1]) == 0:
+            continue
+        for name, f, extra in fns:
+            dtype_case(ctx, name, f, pts, extra)
+
+
 def exhibit(ctx, where, what, case):
     """try to turn a static linking offence into a concrete failing call"""
     import importlib
@@ -273,6 +317,7 @@ def run(ctx):
     for _ in range(3 if ctx.tier == 'quick' else 60):
         for name, f, args, kwargs in registry(rng):
             purity_case(ctx, name, f, args, kwargs)
+    dtype_sweep(ctx, 60 if ctx.tier == 'quick' else 1500)
 
 
 def on_build_failure(ctx, out):
